@@ -238,12 +238,14 @@ func (impl Implementation) Dhseqr(job lapack.SchurJob, compz lapack.SchurComp, n
 		if unconverged > 0 {
 			// A rare Dlahqr failure! Dlaqr04 sometimes succeeds
 			// when Dlahqr fails.
-			kbot := unconverged
+			// Dlahqr returns the number of leading rows of the active
+			// block that have not converged; kbot is its last row.
+			kbot := unconverged - 1
 			if n >= nl {
 				// Larger matrices have enough subdiagonal
 				// scratch space to call Dlaqr04 directly.
 				unconverged = impl.Dlaqr04(wantt, wantz, n, ilo, kbot, h, ldh,
-					wr[:ihi+1], wi[:ihi+1], ilo, ihi, z, ldz, work, lwork, 1)
+					wr[:kbot+1], wi[:kbot+1], ilo, ihi, z, ldz, work, lwork, 1)
 			} else {
 				// Tiny matrices don't have enough subdiagonal
 				// scratch space to benefit from Dlaqr04. Hence,
@@ -252,12 +254,24 @@ func (impl Implementation) Dhseqr(job lapack.SchurJob, compz lapack.SchurComp, n
 				var hl [nl * nl]float64
 				impl.Dlacpy(blas.All, n, n, h, ldh, hl[:], nl)
 				impl.Dlaset(blas.All, nl, nl-n, 0, 0, hl[n:], nl)
+				// Dlaqr04 checks z against the order nl of the
+				// enlarged matrix, so z is enlarged as well.
+				var zl []float64
+				ldzl := 1
+				if wantz {
+					zl = make([]float64, nl*nl)
+					ldzl = nl
+					impl.Dlacpy(blas.All, n, n, z, ldz, zl, ldzl)
+				}
 				var workl [nl]float64
 				unconverged = impl.Dlaqr04(wantt, wantz, nl, ilo, kbot, hl[:], nl,
-					wr[:ihi+1], wi[:ihi+1], ilo, ihi, z, ldz, workl[:], nl, 1)
+					wr[:kbot+1], wi[:kbot+1], ilo, ihi, zl, ldzl, workl[:], nl, 1)
 				work[0] = workl[0]
 				if wantt || unconverged > 0 {
 					impl.Dlacpy(blas.All, n, n, hl[:], nl, h, ldh)
+				}
+				if wantz {
+					impl.Dlacpy(blas.All, n, n, zl, ldzl, z, ldz)
 				}
 			}
 		}
